@@ -187,6 +187,22 @@ def check_copy(arg):
             continue
         if clean(obs.data()) != before:
             bad("not-independent", f"changing the {who} changed the other object")
+    # a second copy of the same object after what its text does not show was changed (note; members of a referenced address group): it describes the object as it is now
+    try:
+        src2 = factory()
+        _ = src2.copy() if how == "copy" else type(src2)(**src2.data())
+        if hasattr(src2, "note"):
+            src2.note = "changed after the first copy"
+        for side in ("srcaddr", "dstaddr"):
+            addr = getattr(src2, side, None)
+            if addr is not None and getattr(addr, "addrgroup", "") and addr.items:
+                addr.items = list(addr.items)[:-1] + [cisco_acl.Address("host 10.99.0.9" if platform == "ios" else "10.99.0.9/32", platform=platform)]
+        cp2 = src2.copy() if how == "copy" else type(src2)(**src2.data())
+        if clean(cp2.data()) != clean(src2.data()) or getattr(cp2, "note", None) != getattr(src2, "note", None):
+            d1, d2 = clean(src2.data()), clean(cp2.data())
+            bad("second-copy-stale", f"a second {how} taken after note / group members were changed differs from the object in {[k for k in d1 if d1[k] != d2.get(k)]}")
+    except Exception as ex:
+        bad("second-copy-error", f"{type(ex).__name__}: {ex}")
     return fails, 1
 
 
